@@ -389,10 +389,14 @@ class SpecEval(object):
             if not (prefer.op == 'select' or (prefer.op == 'app' and prefer.val == 'elem')):
                 raise SpecError('%s: the trigger of a quantifier must be an element read' % self.what)
             pr_ = None
-            for cf in (1, -1):
-                r = lin_split(prefer.args[1], k, cf)
-                if r is not None:
-                    pr_ = (cf, r)
+            cands_ = [prefer] + [x for x in subterms(prefer) if x.op == 'app' and x.val == 'elem']
+            for c_ in cands_:
+                for cf in (1, -1):
+                    r = lin_split(c_.args[1], k, cf)
+                    if r is not None:
+                        pr_ = (cf, r)
+                        break
+                if pr_ is not None:
                     break
             if pr_ is None:
                 raise SpecError('%s: trigger index is not k + c or c - k' % self.what)
